@@ -47,3 +47,7 @@ def run(chk):
 def only_after_copy(d):
   hist = d.get('history') or []
   return any(a[0] in ('Clone',) for a in hist) or d['act'][0] == 'Clone'
+
+
+def replay(chk, path):
+  symtree_check.replay_file(chk, path, CLAUSES, only_after_copy)
